@@ -406,7 +406,8 @@ def _simplify_const(schema: dict) -> dict:
     schema = schema.copy()
     const = schema.pop('const')
     if 'enum' in schema:
-        schema['enum'] += [const]
+        # const AND enum: only the constant is left, and only if the enum lists it
+        schema['enum'] = _merge_enums(schema['enum'], [const])
     else:
         schema['enum'] = [const]
     return schema
